@@ -6,7 +6,7 @@ import sys
 
 VERIF = os.path.dirname(os.path.dirname(os.path.abspath(__file__)))
 
-HOOK_COMMITS = ['0391044']
+HOOK_COMMITS = ['0391044', '59799cb', '319c33a']
 
 COMMON_NOTE = ('Bounded: holds for all values inside the stated bounds under the listed summaries/assumptions '
                '(evidence.assumptions, coverage.summaries_used); trusted base: rustc MIR emission, the mirsym encoder '
